@@ -57,13 +57,14 @@ def round32(m):
     return out
 
 def base_model(rng, quick):
-    # excluded on purpose: one-layer heads and heads with a non-conductive inclusion - their head matrix is singular on the
-    # pinned tree (condition number 1e16, DESIGN 4 #14 / C10), so every gain is noise; one such model is replayed below
+    # excluded on purpose: heads with a non-conductive inclusion - their head matrix is singular on the pinned tree
+    # (condition number 1e16, C10's known finding), so every gain is noise; one such model is replayed below.
+    # One-layer heads are regular since the repair of mark_current_barriers (parts of a single mesh are deflated).
     kind = rng.choice(["nested", "nested", "nested", "split", "inclusions"])
     def sig(): return rng.choice([1.0, 0.33, 0.0125, 1.79, 0.2])
     lvl = 1
     if kind == "nested":
-        n = rng.randint(2, 3); radii = [1.0]
+        n = rng.randint(1, 3); radii = [1.0]
         for _ in range(n - 1): radii.insert(0, radii[0] * rng.uniform(0.75, 0.92))
         m = models.nested(radii, [sig() for _ in range(n)], lvl)
         m["info"]["src_radius"] = radii[0]
